@@ -16,7 +16,7 @@ RULE = ("labelled digraphs with at least one cycle (self-loops, 2-cycles, longer
         "components) on 1-4 commands enumerated (quick: sampled), 5-8 random; edge realisation in {direct, list, nested list, mixed}; "
         "probe library and real EEMS commands; distinct by (n, canonical cycle structure: self-loop / 2-cycle / longer, has-tail, "
         "has-acyclic-part, realisation, library)")
-REQUIRED_COUNTERS = ["cyclic_programs_run", "recursive_model_errors_seen", "run_depth_observations", "api_built_programs"]
+REQUIRED_COUNTERS = ["cyclic_programs_run", "recursive_model_errors_seen", "run_depth_observations", "api_built_programs", "late_cycle_closures"]
 EXHAUSTIVE = {"thorough": False}
 EXHAUSTIVE_NOTE = "thorough tier enumerates every cyclic labelled digraph on 1-4 commands (64 839 edge sets) in one realisation each plus random realisations"
 ASSUMPTIONS = ["whether commands outside the cycle executed before the rejection is not judged", "lineno of the error: any value"]
@@ -76,7 +76,7 @@ def cases(ctx):
             if ctx.mine(idx) and has_cycle(n, edges):
                 yield {"n": n, "edges": [list(e) for e in edges], "real": rng.choice(["direct", "list", "nested", "mixed", "mixed"]),
                        "lib": "eems" if idx % 5 == 0 else "probe", "order": rng.randrange(10 ** 6), "multiline": idx % 3 == 0, "dupe": idx % 4 == 1,
-                       "sorted_order": idx % 3 == 0 and idx % 2 == 0, "api": idx % 5 == 2, "noout": idx % 7 == 3}
+                       "sorted_order": idx % 3 == 0 and idx % 2 == 0, "api": idx % 5 == 2, "noout": idx % 7 == 3, "late": idx % 11 == 4}
             idx += 1
     for i in range(ctx.n(300, 20000)):
         n = rng.randint(5, 8)
@@ -90,7 +90,7 @@ def cases(ctx):
             edges.add((a, b))
         yield {"n": n, "edges": [list(e) for e in sorted(edges)], "real": rng.choice(["direct", "list", "nested", "mixed"]),
                "lib": rng.choice(["probe", "probe", "eems"]), "order": rng.randrange(10 ** 6), "multiline": rng.random() < 0.4, "dupe": rng.random() < 0.3,
-               "sorted_order": rng.random() < 0.3, "api": rng.random() < 0.25, "noout": rng.random() < 0.2}
+               "sorted_order": rng.random() < 0.3, "api": rng.random() < 0.25, "noout": rng.random() < 0.2, "late": rng.random() < 0.15}
 
 
 def _layout(line, multi):
@@ -187,10 +187,48 @@ def run_case(ctx, case):
         with open(d + "/in.csv", "w") as f:
             f.write("X0\n1\n2\n3\n")
     st = structure(case["n"], [tuple(e) for e in case["edges"]])
-    ctx.feature((case["n"] if case["n"] <= 4 else "5-8", st, case["real"], case["lib"], bool(case.get("multiline")), bool(case.get("dupe")), bool(case.get("sorted_order")), bool(case.get("api")), bool(case.get("noout"))))
     ctx.count("cyclic_programs_run")
+    late = None
+    if case.get("late") and not case.get("api"):
+        # one command of a cycle is missing at first: run() fails on the dangling reference; the command is then added through
+        # add_command (closing the cycle) and the program is run again
+        edges = [tuple(e) for e in case["edges"]]
+        adj = {i: [j for (a, j) in edges if a == i] for i in range(case["n"])}
+
+        def reaches(u, target):
+            seen, st = set(), list(adj[u])
+            while st:
+                v = st.pop()
+                if v == target:
+                    return True
+                if v not in seen:
+                    seen.add(v)
+                    st.extend(adj[v])
+            return False
+        members = [i for i in range(case["n"]) if reaches(i, i) and any(a != i and j == i for (a, j) in edges)]
+        if members:
+            late = "N%d" % members[case["order"] % len(members)]
+    ctx.feature((case["n"] if case["n"] <= 4 else "5-8", st, case["real"], case["lib"], bool(case.get("multiline")), bool(case.get("dupe")), bool(case.get("sorted_order")), bool(case.get("api")), bool(case.get("noout")), bool(late)))
     try:
-        prog = Program.from_source(text, libraries=libs, working_dir=d)
+        if late:
+            full = Program.from_source(text, libraries=libs, working_dir=d)
+            src_cmd = full.commands[late]
+            # the program without the late command: re-render from the parsed one
+            prog = Program(libraries=libs, working_dir=d)
+            for name, cmd in full.commands.items():
+                if name != late:
+                    prog.add_command(type(cmd), name, {a.name: _plain(a.value) for a in cmd.arguments}, lineno=cmd.lineno)
+            try:
+                prog.run()
+                first = "no error"
+            except Exception as e:
+                first = type(e).__name__
+            ctx.count("late_cycle_closures")
+            if first != "ResultDoesNotExist":
+                ctx.dontcare("first run of the incomplete program gave %s" % first)
+            prog.add_command(type(src_cmd), late, {a.name: _plain(a.value) for a in src_cmd.arguments})
+        else:
+            prog = Program.from_source(text, libraries=libs, working_dir=d)
         if case.get("api"):
             # the same program rebuilt through add_command (no line numbers anywhere)
             ctx.count("api_built_programs")
@@ -219,7 +257,7 @@ def run_case(ctx, case):
     rkey = "%s:%s" % (case["lib"], case["real"] if case["real"] != "mixed" else "mixed")
     if err is None:
         unfinished = [n for n, c in prog.commands.items() if not c.is_finished]
-        ctx.fail("returned-normally:%s" % ("nothing-ran" if not executed else "partly-ran"), {"text": text, "executed": executed, "unfinished": unfinished, "structure": skey, "via": rkey})
+        ctx.fail("returned-normally:%s%s" % ("nothing-ran" if not executed else "partly-ran", ":cycle-closed-after-a-failed-run" if late else ""), {"late_command": late, "text": text, "executed": executed, "unfinished": unfinished, "structure": skey, "via": rkey})
         return
     name = type(err).__name__
     if name == "RecursiveModelStructure":
@@ -238,6 +276,6 @@ def run_case(ctx, case):
         chain.append(type(e).__name__)
         e = getattr(e, "exc", None) or e.__cause__
     if "RecursionError" in chain or depth > 50:
-        ctx.fail("stack-exhausted:%s" % rkey.split(":")[1], {"chain": chain, "depth": depth, "text": text, "structure": skey})
+        ctx.fail("stack-exhausted:%s%s" % (rkey.split(":")[1], ":cycle-closed-after-a-failed-run" if late else ""), {"late_command": late, "chain": chain, "depth": depth, "text": text, "structure": skey})
     else:
         ctx.fail("wrong-error-%s" % name, {"chain": chain, "text": text, "error": str(err)[:300], "structure": skey})
